@@ -158,11 +158,8 @@ func execute(in input) ([]tickObs, error) {
 			}
 			meta := m.Meta()
 			var dst int
-			if _, err := fmt.Sscanf(string(meta.Dst), "A%d", &dst); err != nil {
-				return nil, fmt.Errorf("bad dst %q", meta.Dst)
-			}
-			if meta.Src != top.AsRemote() {
-				return nil, fmt.Errorf("bad rsp src %q", meta.Src)
+			if _, err := fmt.Sscanf(string(meta.Dst), "A%d", &dst); err != nil || meta.Src != top.AsRemote() {
+				dst = 999999 // not a requester / not sent from Top: the property predicate rejects it
 			}
 			switch r := m.(type) {
 			case memprotocol.DataReadyRsp:
